@@ -12,6 +12,7 @@ type zzIdleProbe struct {
 	panicFirst bool
 	panicInactive bool
 	closeInActive func()
+	closeBeforePanic func()
 	events     int
 }
 
@@ -49,6 +50,9 @@ func (p *zzIdleProbe) HandleEvent(ctx EventContext, ev Event) {
 	}
 	vrt.Reach("c20-idle-event")
 	if p.panicFirst && g.events == 1 {
+		if p.closeBeforePanic != nil {
+			p.closeBeforePanic() // the handler closes the idle connection and then fails
+		}
 		panic("zz: event handler failure")
 	}
 	ctx.HandleEvent(ev)
@@ -90,7 +94,7 @@ func ZZ_C20_Idle(kind, traffic, withInactive, panicFirst int) {
 	d := 2000000000 // concrete clock in this (concurrent) harness; the symbolic clock is ZZ_C20_Timing's subject
 	adv := []int{0, 1000000000, 2000000000, 5000000000}
 	g.d = int64(d)
-	probe := &zzIdleProbe{g: g, panicFirst: panicFirst == 1}
+	probe := &zzIdleProbe{g: g, panicFirst: panicFirst == 1 || panicFirst == 3}
 	tr := newZZTransport()
 	if panicFirst == 2 {
 		// the first outbound write passes the idle handler and then fails further down (the transport refuses it)
@@ -104,6 +108,9 @@ func ZZ_C20_Idle(kind, traffic, withInactive, panicFirst int) {
 		pl.AddLast(WriteIdleHandler(time.Duration(d)), probe)
 	}
 	ch := zzNewChannel(pl, tr, 0, false)
+	if panicFirst == 3 {
+		probe.closeBeforePanic = func() { ch.Close(zzErrUserClose) }
+	}
 	g.activeAt = vrt.Now()
 	if withInactive == 3 {
 		// a handler behind the idle handler refuses the connection: it closes the channel while it handles the active
@@ -138,6 +145,14 @@ func ZZ_C20_Idle(kind, traffic, withInactive, panicFirst int) {
 		vrt.Assert((pv != nil) == (withInactive == 2), "c20-inactive-event-delivered-downstream")
 	}
 	vrt.Quiesce()
+	if panicFirst == 3 && g.events >= 1 {
+		// the event handler closed the channel (inactive passed the idle handler) and then panicked: the panic is
+		// still routed as an exception, and the timer is released
+		vrt.Assert(g.exceptions == 1, "c20-event-handler-panic-routed-as-one-exception")
+		vrt.Assert(vrt.TimersArmed() == 0, "c20-timer-released-after-inactive")
+		vrt.Reach("c20-close-then-panic")
+		return
+	}
 	if withInactive != 0 {
 		vrt.Assert(vrt.TimersArmed() == 0, "c20-timer-released-after-inactive")
 		vrt.Reach("c20-inactive-done")
